@@ -19,7 +19,11 @@ func main() {
 	verbose := flag.Bool("v", false, "verbose")
 	prop := flag.String("prop", "", "property id: run the property check")
 	tier := flag.String("tier", "quick", "quick or thorough")
+	replay := flag.String("replay", "", "re-run the replay recorded in this file")
 	flag.Parse()
+	if *replay != "" {
+		os.Exit(rerunReplay(*replay))
+	}
 	if *prop != "" {
 		os.Exit(runProperty(*repo, *lib, *prop, *tier))
 	}
